@@ -235,15 +235,26 @@ def main():
     # ids are global (independent of --files) so that runs can be resumed
     jobs = [j for j in jobs if any(fnmatch.fnmatch(j[1], g) for g in a.files)]
     if a.second_pass:
-        ALL = [f'C{i:02d}' for i in range(1, 21)]
+        SECOND = {'mido/midifiles/meta.py': 'C15 C16',
+                  'mido/messages/messages.py': 'C07 C12',
+                  'mido/messages/specs.py': 'C14 C15',
+                  'mido/messages/checks.py': 'C14',
+                  'mido/messages/decode.py': 'C10',
+                  'mido/messages/strings.py': 'C01',
+                  'mido/midifiles/midifiles.py': 'C12 C09',
+                  'mido/midifiles/tracks.py': 'C07 C15',
+                  'mido/frozen.py': 'C14 C03',
+                  'mido/tokenizer.py': 'C11',
+                  'mido/parser.py': 'C11 C19'}
         alive = {}
         for ln in open(a.out):
             r = json.loads(ln)
             if r['outcome'] == 'survived':
                 alive[(r['file'], r['line'], r['mutation'], r['id'])] = r
         jobs = [(j[0], j[1], j[2], j[3], j[4],
-                 [c for c in ALL if c not in j[5]], j[6])
-                for j in jobs if (j[1], j[2], j[3], j[0]) in alive]
+                 SECOND.get(j[1], '').split(), j[6])
+                for j in jobs if (j[1], j[2], j[3], j[0]) in alive
+                and SECOND.get(j[1])]
         a.out = a.out.replace('.jsonl', '.pass2.jsonl')
     jobs = jobs[::a.stride]
     if a.limit:
